@@ -32,7 +32,24 @@ case "$ID" in
       fi
       echo "BUILD-FAILED property=$ID (/repo does not compile with -tags verif); see $LOG"; head -30 "$LOG"; exit 2
     fi
-    $BIN check "$ID" --tier "$TIER"; exit $?
+    $BIN check "$ID" --tier "$TIER"; rc=$?
+    # supplementary pass (C05, C20): the same scenario bodies on real goroutines in a binary built with the Go race
+    # detector and without the controlled scheduler - it sees unsynchronised accesses inside the standard library and
+    # on objects the scheduler's detector does not track. Sampling, therefore only an addition to the exhaustive run.
+    if [ $rc = 0 ] && [ -z "${VERIF_NO_RACEPASS:-}" ] && { [ "$ID" = C05 ] || [ "$ID" = C20 ]; }; then
+      mkdir -p "$OV/none"
+      if .build/instr -repo /repo -shim "$PWD/shim/vsched" -out "$OV/none" -mode none >>"$LOG" 2>&1 && \
+         (cd mc && CGO_ENABLED=1 flock ../.build/build.lock go build -race -tags verif,verifinst -overlay "$OV/none/overlay.json" -o ../.build/mc-race ./cmd/mc) >>"$LOG" 2>&1; then
+        rm -f .build/$ID.racepass.json
+        VERIF_RACEPASS=1 VERIF_EVIDENCE_SUFFIX=.racepass GORACE="halt_on_error=1 exitcode=66" .build/mc-race check "$ID" --tier "$TIER" | sed -e 's/^SUMMARY/RACEPASS-SUMMARY/'
+        rc2=${PIPESTATUS[0]}
+        python3 tools/merge_racepass.py "$ID" || true
+        [ $rc2 != 0 ] && rc=$rc2
+      else
+        echo "RACEPASS-SKIPPED property=$ID: the race-detector build failed; see $LOG (tool failure, not a violation)"
+      fi
+    fi
+    exit $rc
     ;;
 esac
 BIN=.build/mc
